@@ -238,6 +238,7 @@ fn main() {
         "C02" => { vh::c02::check(&rep); rep.finish(vh::c02::RULE, vh::c02::ASSUME, vh::c02::SITUATIONS) }
         "C10" => { vh::c10::check(&rep); rep.finish(vh::c10::RULE, vh::c10::ASSUME, vh::c10::SITUATIONS) }
         "C11" => { vh::c11::check(&rep); rep.finish(vh::c11::RULE, vh::c11::ASSUME, vh::c11::SITUATIONS) }
+        "C13" => { vh::c13::check(&rep); rep.finish(vh::c13::RULE, vh::c13::ASSUME, vh::c13::SITUATIONS) }
         "C16" => { vh::c16::check(&rep); rep.finish(vh::c16::RULE, vh::c16::ASSUME, vh::c16::SITUATIONS) }
         _ => { eprintln!("unknown property {}", id); 2 }
     };
